@@ -102,6 +102,9 @@ async def consume_a(b, plan, close, keep=None):
     b.outs = outs
     done = [False] * len(outs)
     for o in plan:
+        if isinstance(o, list) and o[0] == "mutate":
+            mutate_source(b, o)
+            continue
         if isinstance(o, list):  # ["close", child]: close one output early, its siblings continue
             if o[1] < len(outs) and not done[o[1]]:
                 closer = getattr(outs[o[1]], "aclose", None)
@@ -156,6 +159,9 @@ def consume_s(b, plan, keep=None):
     b.outs = outs
     done = [False] * len(outs)
     for o in plan:
+        if isinstance(o, list) and o[0] == "mutate":
+            mutate_source(b, o)
+            continue
         if isinstance(o, list):  # the stdlib counterpart of closing a child is dropping it
             if o[1] < len(outs) and not done[o[1]]:
                 outs[o[1]] = None
@@ -227,8 +233,27 @@ def run_sync(desc):
     return b
 
 
-CONSUMER_EVENTS = ("yield", "stop", "raise", "return", "closed", "kept")
+CONSUMER_EVENTS = ("yield", "stop", "raise", "return", "closed", "kept", "mutated")
 IGNORED_FOR_TRACE = ("close", "close-raise") if __import__("os").environ.get("VF_STRICT_REPULL") else ("repull", "close", "close-raise")
+
+
+def mutate_source(b, op):
+    """["mutate", source index, how, uid]: the caller changes the list it handed to the tool"""
+    from .values import Item
+
+    _, i, how, uid = op
+    lst = b.srcs[i].obj
+    if not isinstance(lst, list):
+        return
+    if how == "append":
+        lst.append(Item(1, uid))
+    elif how == "insert0":
+        lst.insert(0, Item(2, uid))
+    elif how == "pop" and lst:
+        lst.pop()
+    elif how == "clear":
+        lst.clear()
+    b.ctx.ev("mutated", i, how)
 
 
 def consumer_view(log):
